@@ -47,6 +47,9 @@ type op struct {
 	Repl  bool      `json:"replace,omitempty"`     // copy: metadata directive REPLACE
 	TRepl bool      `json:"tag_replace,omitempty"` // copy: tagging directive REPLACE
 	Kill  bool      `json:"kill,omitempty"`        // restart: SIGKILL instead of SIGTERM
+	// put: the upload states a Content-MD5 (plain encodings) that belongs to other content: it is not acknowledged and
+	// the key keeps reading exactly as before - bytes, headers, metadata, tags (checked by the reads that follow)
+	Refused bool `json:"refused,omitempty"`
 }
 
 type caseA struct {
@@ -149,6 +152,9 @@ func upload(cl *s3c.Client, path string, query []s3c.KV, hdr []s3c.KV, payload [
 	so := s3c.SignOpt{Creds: cl.Creds, Region: gw.Region, Time: now}
 	if o.MD5 {
 		r.Set("Content-MD5", s3c.MD5B64(payload))
+	}
+	if o.Refused {
+		r.Set("Content-MD5", s3c.MD5B64(append([]byte("other content "), payload...)))
 	}
 	cm := chunkMode(o.Enc)
 	if o.Csum && cm == "" {
@@ -256,10 +262,25 @@ func execA(c caseA) (st stats, err error) {
 			if err != nil {
 				return st, fmt.Errorf("SETUP: transport: %v", err)
 			}
+			if o.Refused && r.OK() {
+				return st, fmt.Errorf("%s: an upload whose Content-MD5 belongs to other content was acknowledged (%d)", where, r.Status)
+			}
 			if !r.OK() {
 				// not acknowledged: the property says nothing about it (the key must simply
 				// keep reading as before, which the following reads check); counted
 				ev.Class("upload-refused:" + o.Enc + ":" + r.Code())
+				if o.Refused {
+					// read at once: whatever the refused upload touched shows before the next write hides it
+					if m, ok := model[k]; ok {
+						for _, kind := range []string{"get", "tags"} {
+							if err := checkRead(cl, kind, path(k), c.Keys[k], m, where+" [after the refused upload]"); err != nil {
+								return st, err
+							}
+						}
+					} else if gr, gerr := cl.Call("GET", path(k), nil, nil, nil); gerr == nil && gr.Status != 404 {
+						return st, fmt.Errorf("%s: the refused upload to a key that was never written left something: GET answers %d", where, gr.Status)
+					}
+				}
 				continue
 			}
 			if got := s3c.ETag(r.Header.Get("ETag")); got != md5hex(payload) {
@@ -782,6 +803,9 @@ func opGen(thorough bool) *rapid.Generator[op] {
 			o.Meta = metaGen().Draw(t, "meta")
 			o.Hdrs = hdrsGen().Draw(t, "hdrs")
 			o.Tags = tagsGen().Draw(t, "tags")
+			if o.Kind == "put" && rapid.IntRange(0, 7).Draw(t, "refused") == 0 {
+				o.Refused = true
+			}
 			if o.Kind == "mpu" {
 				last := rapid.SampledFrom([]int{0, 1, 100, 70001}).Draw(t, "last_part")
 				if rapid.IntRange(0, 2).Draw(t, "two_parts") == 0 || thorough && rapid.Bool().Draw(t, "two_parts_t") {
